@@ -386,22 +386,32 @@ class Check:
 
     # -- proof part
     def prove(self, need_translate=None):
-        """translate (optional) + make + Props/<cid>.v. Returns True when all obligations are discharged."""
+        """translate -> make (only what this property's theorems and the oracle need) -> Props/<cid>.v.
+        Returns True when all obligations of this property are discharged.  Building only
+        Props/<cid>.vo and Run/Dispatch.vo keeps a broken data theorem of ANOTHER property from
+        raising an alarm here."""
         t = time.time()
         bad = scan_forbidden()
-        ok, out, failed = build_rocq()
+        tr_ok, tr_out = True, ""
+        if os.path.exists(os.path.join(BIN, "vharness")):
+            tr_ok, tr_out = translate()
+        targets = ["Run/Dispatch.vo"]
+        if os.path.exists(os.path.join(ROCQ, "Props", self.cid + ".v")):
+            targets.append("Props/%s.vo" % self.cid)
+        ok, out, failed = build_rocq(targets)
         pr = {"ok": False, "obligations": 1, "discharged": 0, "theorems": [], "axioms": [], "log": ""}
         if os.path.exists(os.path.join(ROCQ, "Props", self.cid + ".v")):
             pr = props(self.cid)
         pr["build_ok"] = ok
         pr["failed_files"] = failed
         pr["forbidden"] = bad
-        pr["make_log"] = out[-3000:] if not ok else ""
+        pr["translate_ok"] = tr_ok
+        pr["make_log"] = (out[-3000:] if not ok else "") + ("" if tr_ok else "\ntranslator failed: " + tr_out[-1500:])
         pr["wall_s"] = round(time.time() - t, 1)
-        if bad or not ok:
+        if bad or not ok or not tr_ok:
             pr["ok"] = False
         self.proof = pr
-        return pr["ok"] and not bad
+        return pr["ok"]
 
     def finish(self, extra_trusted=None, level="proof"):
         os.makedirs(os.path.join(VERIF, "evidence"), exist_ok=True)
